@@ -370,10 +370,15 @@ func (gb *gcpBalancer) getReadySubConnRef(boundKey string) (*subConnRef, bool) {
 				if sc, ok := gb.fallbackMap[boundKey]; ok {
 					return gb.scRefs[sc], true
 				}
-				// Try to create fallback mapping.
-				if scRef, err := gb.picker.(*gcpPicker).getLeastBusySubConnRef(); err == nil {
-					gb.fallbackMap[boundKey] = scRef.subConn
-					return scRef, true
+				// Try to create fallback mapping to the least busy ready subconn.
+				// gb.mu is held here, so the picker must not call back into the
+				// balancer (pool size check / pool growth), and the current picker
+				// may be an errPicker or have no ready subconns.
+				if p, ok := gb.picker.(*gcpPicker); ok {
+					if scRef := p.leastBusySubConnRef(); scRef != nil {
+						gb.fallbackMap[boundKey] = scRef.subConn
+						return scRef, true
+					}
 				}
 			}
 			return nil, true
